@@ -37,9 +37,9 @@ def check(run):
     run.trust('CPython ast', 'checker interpreter', 'models of base64 / bytes.fromhex')
     small_scope(run, prog, w, 5 if thorough else 3)
     dags = bocrun.dags(thorough)
-    big = {'tree341', 'heap255', 'heap256', 'heap257', 'tree85'}
+    big = {'tree341', 'heap255', 'heap256', 'heap257', 'tree85', 'payload70k'}
     for name, roots in dags.items():
-        opts = OPTS if (thorough or name not in big) else [OPTS[0]] if name != 'heap256' else [OPTS[3]]
+        opts = OPTS if (thorough or name not in big) else [OPTS[0]] if name not in ('heap256', 'payload70k') else [OPTS[3]]
         if not thorough and name in ('heap255', 'heap257', 'tree341'):
             continue
         for opt in opts:
